@@ -9,10 +9,12 @@
     P<id>=<name>                       publisher object and its StructName
     h=<name>:<subId>:<subTopic>:<pubSpec>:<pubTopic>:<mwOut>
                                        AddHandler; pubSpec = p<id> | np (AddNoPublisherHandler) | nil (nil publisher)
-    d=<subId>:<topic>:<mid>:<shape>[:<ctx>]
+    d=<subId>:<topic>:<mid>:<shape>[:<ctx>[:<done>]]
                                        a message arrives at (subscriber, topic); shape = E (function errs) | - (no outputs)
                                        | `.`-separated objects c (the consumed message) / f<k> (k-th fresh object);
-                                       ctx = `.`-separated `<keyIdx>_<value>` already on the incoming context (innermost first)
+                                       ctx = n (nothing) | `.`-separated `<keyIdx>_<value>` already on the incoming context
+                                       (innermost first); done = x (the message's context is cancelled before delivery) |
+                                       k (the function cancels it, then returns) | t (deadline the function overruns)
   observation:
     subs=<total>:<c0>,<c1>,…  orphans=<n>  H<i>:<msg>;<msg>…   (one H block per handler that received something)
     msg  = <mid>/<fns>/<ctx5>/<A|N|T>/<pubs>        fns = `+`-joined handler indices whose function got the copy, `-` none
@@ -72,7 +74,12 @@ def keyOf : Nat → Option Key
   | 0 => some .handlerName | 1 => some .publisherName | 2 => some .subscriberName
   | 3 => some .subscribeTopic | 4 => some .publishTopic | _ => none
 
+def doneOf (cs : List Char) : Option CtxDone :=
+  match cs with
+  | ['x'] => some .cancelledBefore | ['k'] => some .cancelledDuring | ['t'] => some .deadlineOverrun | _ => none
+
 def ctxOf (cs : List Char) : Option Ctx :=
+  if cs == ['n'] then some [] else
   (splitOnChar '.' cs).mapM fun t =>
     match splitOnChar '_' t with
     | [k, v] => do
@@ -111,14 +118,22 @@ def addTok (r : Req) (tok : String) : Option Req :=
       let t ← strOf t
       let mid ← natOf mid
       let sh ← shapeOf sh
-      pure { r with ds := r.ds ++ [⟨sub, t, mid, sh, []⟩] }
+      pure { r with ds := r.ds ++ [⟨sub, t, mid, sh, [], .live⟩] }
     | [sub, t, mid, sh, cx] => do
       let sub ← natOf sub
       let t ← strOf t
       let mid ← natOf mid
       let sh ← shapeOf sh
       let cx ← ctxOf cx
-      pure { r with ds := r.ds ++ [⟨sub, t, mid, sh, cx⟩] }
+      pure { r with ds := r.ds ++ [⟨sub, t, mid, sh, cx, .live⟩] }
+    | [sub, t, mid, sh, cx, dn] => do
+      let sub ← natOf sub
+      let t ← strOf t
+      let mid ← natOf mid
+      let sh ← shapeOf sh
+      let cx ← ctxOf cx
+      let dn ← doneOf dn
+      pure { r with ds := r.ds ++ [⟨sub, t, mid, sh, cx, dn⟩] }
     | _ => none
   | ('S' :: id) :: [name] => do
     let id ← natOf id
